@@ -33,7 +33,10 @@ def _hist(quick, thorough, what, profile=None, **kw):
 PROPS = {
     "C10": _hist(3000, 60000, "histories interleave solver-relative is_true/is_false on several frontends with "
                  "module-level/method truth checks on the same expression objects, cache clears and evictions; a True "
-                 "claim must hold on all models (solver) or all assignments (module level)", design_ref="DESIGN.md 5 C10"),
+                 "claim must hold on all models (solver) or all assignments (module level); a quarter of the runs put the same "
+                 "questions to the approximate frontends (SolverHybrid exact=False / approximate_first, SolverVSA, the "
+                 "hybrid's internal SolverReplacement(SolverVSA)) and their branches", design_ref="DESIGN.md 5 C10",
+                 phases=[{"profile": "C10", "share": 0.75}, {"profile": "C10approx", "share": 0.25}]),
     "C11": _hist(4000, 150000, "frontends Solver and SolverCacheless; ops add/sat/eval/batch_eval/min/max/solution/"
                  "is_true/simplify/downsize/branch plus weak-cache and LRU evictions, solver reuse on/off; 85 % of the runs "
                  "use 2-8 bit variables with the enumeration reference, 15 % use 16-130 bit variables with an independent-Z3 "
